@@ -17,7 +17,7 @@ PID = "C06"
 MOD = "bbverif.checks.c06"
 
 BODIES = {
-    "int": ["mode", "args", "index", "mode+args", "three", "func"],
+    "int": ["mode", "args", "index", "mode+args", "three", "func", "index+func"],
     "float": ["args", "args2", "func"],
     "bool": ["plain"],
     "str": ["plain"],
@@ -33,6 +33,9 @@ def body_lines(kind, lv, var, m):
         return ["    Dgate(%s) | %s" % (var, m()), "    Sgate(-%s/%s) | %s" % (var, lv.float(), m())]
     if kind == "index":
         return ["    Rgate(A[%s]) | %s" % (var, m())]
+    if kind == "index+func":
+        # the loop variable inside an array index inside a function call / a list-valued keyword argument / a power
+        return ["    Rgate(sin(A[%s]), vals=[A[%s], exp(A[%s])*%s], k=-A[%s]**2) | %s" % (var, var, var, var, var, m())]
     if kind == "mode+args":
         return ["    Vac | %s" % var, "    Xgate(%s+%s) | [%s, %s]" % (var, lv.int(), var, m())]
     if kind == "three":
@@ -64,7 +67,7 @@ def gen(spec, lv):
         L += ["for %s i in [%s]" % (lt, lv.int() if lt == "int" else lv.float()), "    Zgate(%s) | %s" % ("i", m())]
         pre = [z3.Distinct(modes)] if lv.symbolic and len(modes) > 1 else []
         return {"text": "\n".join(L) + "\n", "pre": pre, "max_paths": 1500}
-    if body == "index":
+    if "index" in body:
         L += ["float array A =", "    %s, %s" % (lv.float(), lv.float()), "    %s, %s" % (lv.float(), lv.float())]
     if before:
         L.append("Xgate(%s) | %s" % (lv.float(), m()))
